@@ -20,7 +20,7 @@ import warnings
 
 import numpy as np
 
-from vmc import bfs
+from vmc import bfs, common
 from vmc.parallel import run_shards
 from vmc.report import Check
 
@@ -339,7 +339,9 @@ def _close(a, b, tol):
 def distances(lo, slope, offset):
     """61-point log grid over 6 decades + boundary seekers around the closed-form zero-loss distance"""
     d0 = 10.0 ** (-offset / slope)
-    g = [10.0 ** (lo + 0.1 * i) for i in range(61)]
+    # the seed only shifts the grid by a fraction of its step (seed 0: the round values)
+    jitter = 0.0 if common.seed() == 0 else 0.1 * common.seed_offset(13)
+    g = [10.0 ** (lo + 0.1 * i + (jitter if 0 < i < 60 else 0.0)) for i in range(61)]
     g += [d0 * 0.99, d0 * 1.01, d0 / 3.0, d0 * 1e-3]
     return np.array(sorted(set(g)), dtype=float), d0
 
